@@ -411,9 +411,11 @@ def run(prop, tier, rep):
         rep.functions.append(dict(function=u["name"], contract_tag=u["tag"], paths=len(rs),
                                   normal_exits=sum(1 for r in rs if r["outcome"] == "return"),
                                   exceptional_exits=sum(1 for r in rs if r["outcome"] == "raise")))
-        if u["tag"] != "*" and "ensures" in u and not any(r["outcome"] == "return" for r in rs) and not any(r["error"] for r in rs):
+        failed_here = any(ob["verdict"] != "proved" for r in rs for ob in r["obligations"])
+        if u["tag"] != "*" and "ensures" in u and not any(r["outcome"] == "return" for r in rs) and not any(r["error"] for r in rs) and not failed_here:
             rep.errors.append("%s@%s: no path reaches a normal return (cover failed)" % (u["name"], u["tag"]))
     # failed obligations
+    witness_cache = {}
     for key, obs in list(by_unit.items()):
         if not (isinstance(key, tuple) and key[0] == "bad"):
             continue
@@ -434,6 +436,20 @@ def run(prop, tier, rep):
             payload = dict(detail=obs[0]["detail"], path=obs[0]["path"], solver_verdict=obs[0]["verdict"], backend=obs[0]["backend"],
                            replay=dict(note="the solver produced no model for this obligation"))
         verdicts = {o["verdict"] for o in obs}
+        if not confirmed and verdicts & {"refuted", "candidate"} and unit.get("replay") and unit["replay"]["tool"] not in ("veftopng",):
+            # the solver's own counterexample did not replay (weakened invariants, or no model at all): look for a concrete
+            # file on which the real decoder contradicts the executable specification - it only decorates the report
+            tool = unit["replay"]["tool"]
+            if tool not in witness_cache:
+                try:
+                    from vcheck import differential
+                    witness_cache[tool] = differential.find_failing(prop, tool)
+                except Exception as e:  # noqa
+                    witness_cache[tool] = None
+            w = witness_cache[tool]
+            if w is not None:
+                payload = dict(payload, replay=w, note="failing input found by the generated-file search after the obligation failed")
+                confirmed = True
         if confirmed:
             rep.violation(oid, payload, True)
         elif degraded.get(obs[0]["ui"]):
@@ -449,6 +465,13 @@ def run(prop, tier, rep):
             rep.undecided.append(oid)
     for fid, where in sorted(present.items()):
         rep.known_finding(fid, where)
+    if prop == "C19" and not os.environ.get("VERIF_ONLY_UNITS"):
+        try:
+            from vcheck import cli_loud
+            n, nbad = cli_loud.run(prop, rep)
+            rep.extra["cli_runs"] = dict(runs=n, silent_failures=nbad)
+        except Exception as e:  # noqa
+            rep.errors.append("CLI stand-in could not run: %s: %s" % (type(e).__name__, str(e)[:300]))
     if tier == "thorough" and not rep.errors:
         # bounded stand-ins next to the proofs (never counted as discharged): generated files through the real decoder vs
         # the executable specification; witnesses of the recorded findings (open ones reproduce, repaired ones stay repaired)
@@ -491,6 +514,12 @@ def replay(prop, path, rep):
     """Re-run the native execution recorded in a replay file; exit 1 if the mismatch is still there."""
     d = json.load(open(path))
     rp = d.get("replay", {})
+    if "case" in rp and "mode" in rp:
+        from vcheck import cli_loud
+        n, nbad = cli_loud.run(prop, rep)
+        still = [v for v in rep.violations if v["obligation"].endswith("/%s/%s/%s" % (rp["tool"], rp["case"], rp["mode"]))]
+        print("still fails" if still else "no mismatch")
+        return 1 if still else 0
     if "input_b64" not in rp:
         print("replay file carries no concrete input (obligation %s): nothing to execute" % d.get("obligation"))
         return 1 if not d.get("confirmed_on_real_code") else 1
